@@ -28,6 +28,7 @@ type c11Case struct {
 	Blocks int           `json:"blocks,omitempty"`  // root blocks in the document
 	Failing int          `json:"failing,omitempty"` // blocks made to fail
 	Entry  string        `json:"entry,omitempty"`   // "" = md, "root" = From-Root with WithMassive
+	NilCtx bool          `json:"nilCtx,omitempty"`  // WithMassive(nil): documented to mean context.Background()
 }
 
 func init() { registerReplay("c11", c11Check) }
@@ -38,6 +39,9 @@ func c11Make(c c11Case) ops.Case {
 	cs.Faults = c.Faults
 	cs.Cancel = c.Cancel
 	cs.Leak = true
+	if c.NilCtx && c.Cancel.Kind == "" {
+		cs.Opts.NilCtx = true
+	}
 	if c.Entry == "root" {
 		cs.Entry = "root"
 		r := "r"
@@ -164,7 +168,7 @@ func c11Record(col *collector, c c11Case) {
 	cl = append(cl, fmt.Sprintf("gomaxprocs:%d", c.Sched.GOMAXPROCS))
 	inside := c.Cancel.Kind == "atOffset" && c.Cancel.K > 0 && c.Cancel.K < len(c.Doc)
 	nontrivial := c.Failing >= 3 || inside || c.Faults.ReaderFailAt >= 1 || c.Faults.WriterFailAt >= 1 || c.Faults.CallbackFailAt >= 1 || c.Cancel.Kind == "atWrite" || c.Cancel.Kind == "atCallback" || c.Cancel.Kind == "afterDelay"
-	col.eval(nontrivial, hash64(string(c.Doc), fmt.Sprint(c.Op, c.Exts, c.Strict, c.Pre, c.Faults, c.Cancel, c.Sched, c.Race, c.Entry)), cl...)
+	col.eval(nontrivial, hash64(string(c.Doc), fmt.Sprint(c.Op, c.Exts, c.Strict, c.Pre, c.Faults, c.Cancel, c.Sched, c.Race, c.Entry, c.NilCtx)), cl...)
 	col.sample(func() any {
 		return map[string]any{"doc": truncate(string(c.Doc), 200), "op": c.Op, "faults": c.Faults, "cancel": c.Cancel, "sched": c.Sched, "race": c.Race}
 	})
@@ -270,6 +274,7 @@ func c11Gen(race bool) *rapid.Generator[c11Case] {
 				c.Exts = nil
 			}
 		}
+		c.NilCtx = rapid.IntRange(0, 9).Draw(t, "nilCtx") == 0
 		c.Sched = genSched(t)
 		if rapid.Bool().Draw(t, "handleWait") {
 			if c.Sched.Hook == nil {
